@@ -49,6 +49,7 @@ class GenFile:
         self.groups = {}
         self.systems = {}
         self.context = None
+        self.defaults = None
         self.build(n_units, with_groups, with_offset)
 
     def build(self, n_units, with_groups, with_offset):
@@ -131,6 +132,9 @@ class GenFile:
                     self.unit_names.append(nm)
                 self.groups[g] = (using, members)
             self.systems = {"S1": (["G2"], [])}
+            if rng.random() < 0.5:
+                # a default group: it receives the units that no @group block defines
+                self.defaults = {"group": "GD"}
         # a context with a parameter default and a rule between two base dimensions of the file
         self.context = None
         if "metre" in self.base and "second" in self.base and rng.random() < 0.7:
@@ -179,4 +183,6 @@ class GenFile:
             out.append("@end")
         if self.context:
             out.extend(self.context["lines"])
+        if self.defaults:
+            out += ["@defaults"] + [f"    {k_} = {v_}" for k_, v_ in self.defaults.items()] + ["@end"]
         return "\n".join(out) + "\n"
